@@ -1,0 +1,21 @@
+//go:build verif
+
+package uhppote
+
+// Verification hooks (build tag `verif` only): let an external harness wrap or replace the
+// transport driver of a client built with NewUHPPOTE, so that requests can be recorded and
+// replies injected without touching the network.
+
+// VerifDriver is the (otherwise unexported) transport interface.
+type VerifDriver = driver
+
+// VerifSetDriver replaces the driver of a client created by NewUHPPOTE with wrap(current driver)
+// and returns false if the client is of another type.
+func VerifSetDriver(u IUHPPOTE, wrap func(VerifDriver) VerifDriver) bool {
+	if v, ok := u.(*uhppote); !ok {
+		return false
+	} else {
+		v.driver = wrap(v.driver)
+		return true
+	}
+}
